@@ -173,7 +173,9 @@ Fixpoint rd_call_index (rd : string -> bool) (calls : list call) : option nat :=
    message in the slot carries the id of the call at that position, [ids]) *)
 Inductive tout : Type :=
 | TWhole (results : list tmsg)
-| TFrames (ids : list string) (em : list emitted).
+| TFrames (ids : list string) (em : list emitted) (tail : option N).
+(* [tail]: the merged stream ends with this error item (a tool whose stream failed after it had
+   been opened) - streams are lazy: the tools node has long returned when a reader meets it *)
 
 Fixpoint all_some {A} (l : list (option A)) : option (list A) :=
   match l with
@@ -187,7 +189,8 @@ Fixpoint all_some {A} (l : list (option A)) : option (list A) :=
 Definition tout_results (o : tout) : res (list tmsg) :=
   match o with
   | TWhole rs => Ok rs
-  | TFrames ids em =>
+  | TFrames ids em (Some e) => Err e
+  | TFrames ids em None =>
       match concat_pos ids em with
       | Ok slots => match all_some slots with Some rs => Ok rs | None => Err E_NILSLOT end
       | Err e => Err e
@@ -197,14 +200,16 @@ Definition tout_results (o : tout) : res (list tmsg) :=
 
 (* direct_return (a transformable lambda: it converts its input stream frame by frame; an invoked
    tools node's output is a stream of one frame): the slot at position [i] of every frame, frames
-   in which it is nil dropped; the caller concatenates what is left (nothing left = no answer) *)
-Definition tout_direct (i : nat) (o : tout) : option tmsg :=
+   in which it is nil dropped; the caller concatenates what is left (nothing left = no answer) and
+   meets the error item, if there is one *)
+Definition tout_direct (i : nat) (o : tout) : res (option tmsg) :=
   match o with
-  | TWhole rs => nth_error rs i
-  | TFrames ids em =>
+  | TWhole rs => Ok (nth_error rs i)
+  | TFrames ids em (Some e) => Err e
+  | TFrames ids em None =>
       match proj i em, nth_error ids i with
-      | c :: cs, Some id => Some (concat_strings (c :: cs), id)
-      | _, _ => None
+      | c :: cs, Some id => Ok (Some (concat_strings (c :: cs), id))
+      | _, _ => Ok None
       end
   end.
 
@@ -227,7 +232,7 @@ Definition direct_answer_v0 (rd : string -> bool) (calls : list call) (o : tout)
   if String.eqb id "" then None
   else Some match o with
             | TWhole rs => find_tcid_v0 id rs
-            | TFrames ids em =>
+            | TFrames ids em _ =>
                 match filter (fun e => match nth_error ids (fst e) with
                                        | Some i => String.eqb i id
                                        | None => false
@@ -240,14 +245,15 @@ Definition direct_answer_v0 (rd : string -> bool) (calls : list call) (o : tout)
 Definition direct_answer (rd : string -> bool) (calls : list call) (o : tout) : option (option tmsg) :=
   match rd_call_index rd calls with
   | None => None
-  | Some i => Some (tout_direct i o)
+  | Some i => Some (match tout_direct i o with Ok a => a | _ => None end)
   end.
 
 Inductive mode : Type := Generate | Stream.
 
 Section React.
   Variable tn : list call -> res (list tmsg).    (* the tools node on the calls of one assistant message: Invoke *)
-  Variable tns : list call -> res (list string * list emitted). (* ... Stream: call ids and merged frames *)
+  Variable tns : list call -> res (list string * list emitted * option N).
+                                                 (* ... Stream: call ids, merged frames, final error item *)
   Variable rd : string -> bool.                  (* ToolReturnDirectly *)
   Variable rd_nonempty : bool.                   (* len(ToolReturnDirectly) > 0 *)
   Variable modifier : list msg -> list msg.      (* MessageModifier (identity if none) *)
@@ -310,7 +316,8 @@ Section React.
   Record state : Type := mkState { s_messages : list msg; s_rd : option nat }.
 
   Inductive task : Type :=
-  | TChat (input : list msg)
+  | TChat (input : res (list msg))   (* the caller's messages, or the tools node's output as the chat node's
+                                        pre-processing concatenates it (which fails if the stream does) *)
   | TTools (input : msg)
   | TDirect (input : tout).
 
@@ -318,7 +325,7 @@ Section React.
   Definition tools_out (md : mode) (calls : list call) : res tout :=
     match md with
     | Generate => res_map TWhole (tn calls)
-    | Stream => res_map (fun p => TFrames (fst p) (snd p)) (tns calls)
+    | Stream => res_map (fun p => TFrames (fst (fst p)) (snd (fst p)) (snd p)) (tns calls)
     end.
 
   (* what the model emits for a scripted message in the given mode *)
@@ -341,7 +348,9 @@ Section React.
     | O => tr_fail EStepLimit
     | S fuel' =>
         match t with
-        | TChat input =>
+        | TChat (Err e) => tr_fail (ETools e)
+        | TChat Panic => tr_fail (ETools E_PANIC)
+        | TChat (Ok input) =>
             let s1 := mkState (s_messages s ++ input) (s_rd s) in
             tr_input (modifier (s_messages s1))
               match script with
@@ -363,25 +372,25 @@ Section React.
             tr_round (m_calls m)
               match tools_out md (m_calls m) with
               | Ok o =>
-                  match tout_results o with
-                  | Ok results =>
-                      tr_emit (emitted_results (m_calls m) results)
-                      (if rd_nonempty then
-                        match s_rd s1 with
-                        | None => agent_loop md fuel' script (TChat (map tool_msg results)) s1
-                        | Some _ => agent_loop md fuel' script (TDirect o) s1
-                        end
-                      else agent_loop md fuel' script (TChat (map tool_msg results)) s1)
-                  | r => tr_fail (tools_err r)
-                  end
+                  (* the node has returned; whoever reads its output to the end meets a stream failure:
+                     the callbacks of the message future here, the next node in the next superstep *)
+                  let rr := tout_results o in
+                  tr_emit (match rr with Ok results => emitted_results (m_calls m) results | _ => [] end)
+                  (if rd_nonempty then
+                    match s_rd s1 with
+                    | None => agent_loop md fuel' script (TChat (res_map (map tool_msg) rr)) s1
+                    | Some _ => agent_loop md fuel' script (TDirect o) s1
+                    end
+                  else agent_loop md fuel' script (TChat (res_map (map tool_msg) rr)) s1)
               | r => tr_fail (tools_err r)
               end
         | TDirect o =>
             match s_rd s with
             | Some i =>
                 match tout_direct i o with
-                | Some r => tr_final (tool_msg r)
-                | None => tr_fail ENoDirect
+                | Ok (Some r) => tr_final (tool_msg r)
+                | Ok None => tr_fail ENoDirect
+                | r => tr_fail (tools_err r)
                 end
             | None => tr_fail ENoDirect
             end
@@ -389,7 +398,7 @@ Section React.
     end.
 
   Definition agent_run (md : mode) (max_steps : nat) (script : list step) (input : list msg) : trace :=
-    agent_loop md max_steps script (TChat input) (mkState [] None).
+    agent_loop md max_steps script (TChat (Ok input)) (mkState [] None).
 End React.
 
 (* compose/graph.go: maxRunSteps == 0 -> len(nodes) + 10 ; nodes = chat, tools [, direct_return] *)
@@ -422,18 +431,15 @@ Definition mod_window (n : nat) (h : list msg) : list msg := skipn (List.length 
 (* ---- compose.ToolsNode.Stream as the agent graph's nodes see it ---------------------------- *)
 (* Model/Tools.v: the tool streams are opened (the calls complete in the order [pi]; a panic is
    recovered by the graph's task executor), merged (interleaving [sched_of]: from which stream the
-   next frame is taken) and read to the end; an error item ends the stream with that error *)
+   next frame is taken); an error item ends the merged stream with that error *)
 Definition tools_stream_frames (kind_of : string -> option tkind) (inv : string -> string -> tres)
            (str : string -> string -> sres) (handler : option (string -> string -> tres))
            (pi : list nat) (sched_of : list (list string * option N) -> list nat) (calls : list call)
-  : res (list string * list emitted) :=
+  : res (list string * list emitted * option N) :=
   match in_graph (tools_stream_open kind_of inv str handler pi true calls) with
   | Ok ss =>
       let srcs := stream_srcs ss in
-      match merge_run (sched_of srcs) srcs with
-      | (em, None) => Ok (stream_ids ss, em)
-      | (_, Some e) => Err e
-      end
+      Ok (stream_ids ss, fst (merge_run (sched_of srcs) srcs), snd (merge_run (sched_of srcs) srcs))
   | Err e => Err e
   | Panic => Panic
   end.
